@@ -80,10 +80,10 @@ def bounded(tier, seed):
                     try:
                         e = mk(leaf(), hc)
                         t = e.type
-                    except OverflowError as ex:
-                        what = (f"type inference raised OverflowError for a well-formed expression with a constant beyond the float range and an operand "
+                    except Exception as ex:  # noqa: no documented rejection applies to these well-typed arithmetic expressions
+                        what = (f"type inference raised {type(ex).__name__} for a well-formed expression with a constant beyond the float range and an operand "
                                 f"without {'lower or upper' if leaf().type.lower_bound is None and leaf().type.upper_bound is None else 'one'} bound "
-                                f"[huge-constant:OverflowError:{nm.rstrip(chr(39))}]")
+                                f"[huge-constant:{type(ex).__name__}:{nm.rstrip(chr(39))}]")
                         if what not in {f["what"] for f in failures}:
                             failures.append({"what": what, "concrete": {"operation": nm, "leaf": str(leaf().type), "constant": str(h)[:30] + "..."}, "observed": repr(ex)})
                         continue
